@@ -70,25 +70,7 @@ func init() {
 	reg("(time.Time).String", func(w *Worker, fr *frame, a []Value, fn *ssa.Function) Value {
 		return StringV{Opaque: w.newID()}
 	})
-	reg("(time.Time).Unix", func(w *Worker, fr *frame, a []Value, fn *ssa.Function) Value {
-		ns := w.timeNS(a[0])
-		if s, ok := ns.ConstS(); ok {
-			return w.ctx.BVConst(uint64(s/1e9), 64)
-		}
-		// seconds = ns / 1e9: an exact model (q*1e9 <= ns < (q+1)*1e9) would need
-		// 64-bit multiplication by 1e9 (undecided by the solvers here). Sound
-		// over-approximation: a fresh symbol between ns>>30 and ns>>29 for ns >= 0
-		// (2^29 < 1e9 < 2^30), of the sign of ns otherwise.
-		w.note("Time.Unix of a symbolic instant is over-approximated by a fresh symbol (ns>>30 <= s <= ns>>29)")
-		c := w.ctx
-		q := c.Var("aux:"+w.fresh("unix"), BV(64))
-		z := c.BVConst(0, 64)
-		w.addPC(c.And(
-			c.Implies(c.SGe(ns, z), c.And(c.SGe(q, c.LShr(ns, c.BVConst(30, 64))), c.SLe(q, c.LShr(ns, c.BVConst(29, 64))))),
-			c.Implies(c.SLt(ns, z), c.And(c.SLe(q, z), c.SGe(q, ns))),
-		))
-		return q
-	})
+	// (time.Time).Unix: exact quotient/remainder model in intr_C35s.go
 
 	reg("encoding/hex.DecodeString", func(w *Worker, fr *frame, a []Value, fn *ssa.Function) Value {
 		s := a[0].(StringV)
